@@ -14,10 +14,16 @@ _PATH = os.path.join(VERIF, "known_findings.json")
 
 
 def load():
-    if not os.path.exists(_PATH):
-        return []
-    with open(_PATH) as f:
-        return json.load(f).get("findings", [])
+    out = []
+    paths = [_PATH]
+    d = os.path.join(VERIF, "known_findings.d")
+    if os.path.isdir(d):
+        paths += [os.path.join(d, f) for f in sorted(os.listdir(d)) if f.endswith(".json")]
+    for p in paths:
+        if os.path.exists(p):
+            with open(p) as f:
+                out += json.load(f).get("findings", [])
+    return out
 
 
 def match(pid, cls):
